@@ -174,7 +174,7 @@ pub fn run_c18(prop: &str, seed: u64, index: usize, tier: Tier) -> RunReport {
     // at least two queues
     let mut s = seed;
     let (case, d) = loop {
-        let (c, d) = generate(s, profile, false, 0);
+        let (c, d) = crate::gen::generate_with(s, profile, false, 0, true);
         if c.names.len() >= 2 {
             break (c, d);
         }
@@ -184,9 +184,8 @@ pub fn run_c18(prop: &str, seed: u64, index: usize, tier: Tier) -> RunReport {
     rep.probes = d.probes.clone();
     rep.states.push(state_signature(&d));
     if !d.conformance_ok() {
-        rep.count("histories_skipped_conformance_broken", 1);
-        rep.evaluations = 1;
-        return rep;
+        // no verdict is taken from the model here: the projection oracle below compares executions with each other
+        rep.count("histories_diverging_from_the_reference_model", 1);
     }
     let sig = case_signature(&case, &d);
     let mut rng = Rng::new(mix(&[seed, 0xC18]));
